@@ -504,11 +504,18 @@ func VerifC14GitDriver() {
 // the patched document as YAML, and the json2yaml / yaml2json translations print the library's
 // renderings.
 func VerifC14Yaml() {
-	a, b := vDoc(), vDoc()
+	a0, b0 := vDoc(), vDoc()
+	aText, bText := a0.Yaml(), b0.Yaml()
+	// the documents as the library reads them from the YAML texts (what the YAML codec does to
+	// individual scalars, e.g. -0, is C16's subject, not the CLI's)
+	a, err := jd.ReadYamlString(aText)
+	vAssume(err == nil)
+	b, err := jd.ReadYamlString(bText)
+	vAssume(err == nil)
 	switch vChoice(4) {
 	case 0: // diff of two YAML files
-		vCLISetFile("a.yaml", a.Yaml())
-		vCLISetFile("b.yaml", b.Yaml())
+		vCLISetFile("a.yaml", aText)
+		vCLISetFile("b.yaml", bText)
 		code := vCLIRun([]string{"-yaml", "a.yaml", "b.yaml"})
 		if a.Equals(b) {
 			vAssert(code == 0, "-yaml: inputs are equal but the exit status is not 0")
@@ -518,8 +525,8 @@ func VerifC14Yaml() {
 		vAssert(vCLIStdout() == a.Diff(b).Render(), "-yaml: stdout differs from the library rendering")
 		vCover("c14.yaml.diff")
 	case 1: // patch round trip with YAML documents
-		vCLISetFile("a.yaml", a.Yaml())
-		vCLISetFile("b.yaml", b.Yaml())
+		vCLISetFile("a.yaml", aText)
+		vCLISetFile("b.yaml", bText)
 		code := vCLIRun([]string{"-yaml", "-o", "d.txt", "a.yaml", "b.yaml"})
 		vAssume(code == 0 || code == 1)
 		code2 := vCLIRun([]string{"-yaml", "-p", "d.txt", "a.yaml"})
@@ -529,13 +536,16 @@ func VerifC14Yaml() {
 		vAssert(p.Equals(b), "-yaml -p applied to a does not reproduce b")
 		vCover("c14.yaml.patch")
 	case 2:
-		vCLISetFile("a.json", a.Json())
+		jText := a0.Json()
+		ja, err := jd.ReadJsonString(jText)
+		vAssume(err == nil)
+		vCLISetFile("a.json", jText)
 		code := vCLIRun([]string{"-t", "json2yaml", "a.json"})
 		vAssert(code == 0, "json2yaml does not exit 0")
-		vAssert(vCLIStdout() == a.Yaml(), "json2yaml output differs from the library rendering")
+		vAssert(vCLIStdout() == ja.Yaml(), "json2yaml output differs from the library rendering")
 		vCover("c14.yaml.json2yaml")
 	default:
-		vCLISetFile("a.yaml", a.Yaml())
+		vCLISetFile("a.yaml", aText)
 		code := vCLIRun([]string{"-t", "yaml2json", "a.yaml"})
 		vAssert(code == 0, "yaml2json does not exit 0")
 		vAssert(vCLIStdout() == a.Json(), "yaml2json output differs from the library rendering")
